@@ -87,11 +87,13 @@ def run(L, rep, tier, seed):
 
     def h(ctx):
         cls = classes[ctx.choose(len(classes), 'class')]
-        pos = ctx.choose(2, 'position')
+        pos = ctx.choose(2 if tier == 'quick' else 3, 'position')
         line = offending_line(ctx, cls)
         data = []
-        if pos == 1:
+        if pos >= 1:
             data += K(b'GET /first HTTP/1.1\r\nHost: a\r\n\r\n')
+        if pos >= 2:
+            data += K(b'POST /first HTTP/1.1\r\nHost: a\r\nContent-Length: 2\r\n\r\nxy')
         other_first = ctx.choose(2, 'other-header-first') == 1
         data += K(b'POST /victim HTTP/1.1\r\n')
         if other_first:
@@ -105,8 +107,8 @@ def run(L, rep, tier, seed):
         cv = Conv(S, ctx, data, end='eof')
         pred = {}
         sc = lambda m: dict({'kind': 'conversation', 'class': cls, 'position': pos, 'text': model_bytes(m, data).decode('latin1'),
-                             'mode': 'hold_first' if pos == 1 else 'respond_all'}, **({'predicted': dict(pred)} if pred else {}))
-        reqs = drive(cv, hold=lambda i, rq: (pos == 1 and i == 0))
+                             'mode': 'hold_first' if pos >= 1 else 'respond_all'}, **({'predicted': dict(pred)} if pred else {}))
+        reqs = drive(cv, hold=lambda i, rq: (pos >= 1 and i == 0))
         urls = [r['url'].concrete() for r in reqs]
         ctx.event('witness', cls)
         pred['urls'] = [u.decode('latin1') if u is not None else None for u in urls]
@@ -117,13 +119,13 @@ def run(L, rep, tier, seed):
                 ctx.event('sample', sc(m0))
         delivered_victim = b'/victim' in urls
         delivered_smuggled = b'/smuggled' in urls
-        first_ok = (pos == 0) or (urls[:1] == [b'/first'])
+        first_ok = urls[:pos] == [b'/first'] * pos
         ctx.check_always(z3.BoolVal(first_ok), cls + '/earlier-request-still-served', sc)
         ctx.check_always(z3.BoolVal(not delivered_victim and not delivered_smuggled and cv.blocked is None), cls, sc)
         if not delivered_victim and not delivered_smuggled:
             rs = cv.responses()
             codes = [r.get('status') for r in (rs or [])]
-            want = ([200] if pos == 1 else []) + [400]
+            want = [200] * pos + [400]
             ctx.check_always(z3.BoolVal(codes == want), cls + '/answered-400-then-nothing', sc)
         return True
 
